@@ -60,4 +60,6 @@ def value_close_printed(tok, expected, rel=0.0):
     x = tok_float(tok)
     if math.isnan(x) or math.isnan(expected):
         return math.isnan(x) and math.isnan(expected)
+    if math.isinf(x) or math.isinf(expected):
+        return x == expected
     return abs(x - expected) <= _decimals_tol(tok) * 1.0000001 + rel * abs(expected)
